@@ -36,6 +36,33 @@ def arr_equal(a, b, dtype=True):
         return bool(np.array_equal(a, b))
 
 
+def arr_equal_ulp(a, b, ulps=4):
+    """Same shape and dtype; integers exactly equal; floats equal up to a few ULP (NumPy's SIMD
+    and scalar loops for pow/divide differ in the last bit depending on how many rows are
+    evaluated at once), NaN and inf positions identical."""
+    if not isinstance(a, np.ndarray) or not isinstance(b, np.ndarray):
+        return False
+    if a.shape != b.shape or a.dtype != b.dtype:
+        return False
+    if a.size == 0:
+        return True
+    if a.dtype.kind not in 'fc':
+        return bool(np.array_equal(a, b))
+    with np.errstate(all='ignore'):
+        fin_a, fin_b = np.isfinite(a), np.isfinite(b)
+        if not np.array_equal(fin_a, fin_b):
+            return False
+        if not np.array_equal(a[~fin_a], b[~fin_a], equal_nan=True):
+            return False
+        x, y = a[fin_a], b[fin_a]
+        if x.size == 0:
+            return True
+        eps = np.finfo(a.dtype).eps
+        tol = ulps * eps * np.maximum(np.abs(x), np.abs(y))
+        tiny = np.finfo(a.dtype).tiny
+        return bool(np.all(np.abs(x - y) <= np.maximum(tol, tiny)))
+
+
 def arr_close(a, b, rtol=1e-5, atol=1e-6):
     a = np.asarray(a)
     b = np.asarray(b)
